@@ -209,6 +209,14 @@ def recovery(sp, rig="L", event="none", damages=None):
         sp.require(rows == exp_rows, f"{tag}: rows {rows}, the latest committed version holds {exp_rows}", {"sig": sig})
 
 
+def recovery_race(sp, rig="L", K=2):
+    """Recovery is not only sequential: an opener resolving a LOST pointer by scanning races a committer.  Whatever the opener does with
+    what it found (nothing, on a correct tree), a commit acknowledged meanwhile must stay (same harness as C18's race, initial state
+    'pointer lost', actors: load + schema-less append)."""
+    from vf.props import c18
+    return c18.race(sp, rig=rig, state="pointer_lost", actors=("load", "append_noschema"), K=K)
+
+
 def obligations(tier):
     obs = []
     T = 300 if tier == "quick" else 900
@@ -218,6 +226,8 @@ def obligations(tier):
             obs.append(Ob(f"b.recovery.{rig}.{ev}", "vf.props.c10b:recovery", {"rig": rig, "event": ev, "damages": rest, "_must_reach": ["ran"]}, timeout=T,
                           bounds=f"rig {rig}, history create+3 commits, event '{ev}', every pointer damage class except 'stale' ({len(rest)}) x follow-up action ({len(ACTIONS)})",
                           weight=3))
+        obs.append(Ob(f"b.recovery_race.{rig}.K2", "vf.props.c10b:recovery_race", {"rig": rig, "K": 2 if tier == "quick" else 3, "_must_reach": ["ran"]}, timeout=T,
+                      bounds=f"rig {rig}: pointer lost, an opener (recovery by scanning) races a committer, K=2 (quick) / 3 (thorough)", weight=4))
         obs.append(Ob(f"b.recovery.{rig}.stale_pointer", "vf.props.c10b:recovery", {"rig": rig, "event": "none", "damages": ["stale"], "_must_reach": ["ran"]},
                       timeout=T, bounds=f"rig {rig}, pointer replaced by its own content of one commit earlier x follow-up action", weight=2))
     return obs
